@@ -28,7 +28,15 @@ type vfWorld struct {
 	n         int
 	edge      [vfMax][vfMax]int // edge[i][j], j<i: 0 none, 1 import used, 2 import unused
 	hasSyntax [vfMax]bool
-	wktUser   int // file importing (and using) google/protobuf/any.proto, -1 none
+	wktUser   int      // file importing (and using) google/protobuf/any.proto, -1 none
+	names     []string // file paths; nil: vfName(i)
+}
+
+func (w *vfWorld) vfNameOf(i int) string {
+	if w.names != nil {
+		return w.names[i]
+	}
+	return vfName(i)
 }
 
 // The world of the current path travels with the context handed to buildImage, which passes it on unchanged to
@@ -56,7 +64,7 @@ func (w *vfWorld) vfImportsOf(i int) []string {
 	var imports []string
 	for j := 0; j < i; j++ {
 		if w.edge[i][j] != 0 {
-			imports = append(imports, vfName(j))
+			imports = append(imports, w.vfNameOf(j))
 		}
 	}
 	if i == w.wktUser {
@@ -89,7 +97,7 @@ func (w *vfWorld) vfSource(i int) string {
 
 func (w *vfWorld) vfIndexOf(path string) int {
 	for i := 0; i < w.n; i++ {
-		if vfName(i) == path {
+		if w.vfNameOf(i) == path {
 			return i
 		}
 	}
